@@ -280,6 +280,11 @@ def client_programs(c):
             if step[2]:
               tr.complete(vz.Measurement(metrics={'obj': 1.0}))
             out.append(['added', study.add_trial(tr).id])
+          elif op == 'add_big':
+            tr = vz.Trial(parameters={'x': 0.5})
+            tr.metadata['blob'] = 'x' * step[1]
+            tr.complete(vz.Measurement(metrics={'obj': 1.0}))
+            out.append(['added', study.add_trial(tr).id])
           elif op == 'check_early_stopping':
             dep.script.es = {'kind': 'ok', 'decisions': [[step[1], False]], 'delta': []}
             out.append(['should_stop', clients.Trial(study._client, step[1]).check_early_stopping()])  # pylint: disable=protected-access
@@ -343,6 +348,24 @@ def client_programs(c):
         c.prop_fail('failed-call-changed-data:remote', 'a refused call (suggest on a COMPLETED study) created trials in the %s deployment: %s' % (kind, o[6]), {'deployment': kind, 'program': prog, 'observations': o})
     finally:
       d.close()
+  # a study whose trials carry large metadata (five trials with 1 MiB each): the answer of ListTrials passes
+  # gRPC's default 4 MiB receive limit; in-process there is no such limit
+  big = {}
+  for kind in KINDS:
+    d = deploy.Deployment(kind, 'ram')
+    try:
+      big[kind] = run_program(d, [('create',)] + [('add_big', 1 << 20)] * 5 + [('list',), ('optimal',)])
+      c.traces += 1
+    finally:
+      d.close()
+  c.count(1, ('c08-large-payload',), kind='c08-large-payload')
+  for kind in ('grpc', 'split'):
+    if big[kind] != big['local']:
+      i = next(i for i, (a, b) in enumerate(zip(big['local'], big[kind])) if a != b)
+      c.prop_fail('client-observation-differs:large-payload',
+                  'on a study with five trials of 1 MiB metadata each, step %d (%s) observes %s in-process but %s through the %s deployment' % (
+                      i, ['create', 'add', 'add', 'add', 'add', 'add', 'list', 'optimal'][i], json.dumps(big['local'][i])[:100], json.dumps(big[kind][i])[:160], kind),
+                  {'deployment': kind, 'program': 'create; 5 x add_trial(completed, metadata blob of 2^20 chars); list; optimal', 'local': big['local'], kind: big[kind]})
   wo = globals().get('_c08_witness', {})
   for kind in ('grpc', 'split'):
     if kind in wo and 'local' in wo and wo[kind] != wo['local']:
